@@ -1299,6 +1299,140 @@ def run(ctx):
     ctx.extra["float32_model_calls_compared"] = len(rreqs)
     phase("float32-model")
 
+    # ---------------- round 5: power-of-two rescalings of the compiled natural kernels ------------
+    # Theorem nvg_f32_pow2_invariant: if no difference and no rounded quotient the kernels form is
+    # subnormal before or after the rescaling (NoUflOn, decided by the Lean driver: `noufl`), the
+    # binary32 kernels return on x*2^a, t*2^c exactly what they return on x, t.  Checked on the
+    # compiled kernels (oracle: the affine clause on dyadic data) and, where the series is also
+    # Faithful, against the model rescaled inside Lean (`nvgRs`).  Theorems
+    # small_integer_series_faithful / nvg_f32_small_integer_series_rescaled_iff: for integer series
+    # with B*N <= 2^22 on the default timings both hypotheses are theorems — the driver must say 1
+    # (obligation) and the compiled kernels must return the exact (Fraction) criterion in every
+    # power-of-two unit (oracle).  Where NoUflOn fails (underflow) agreement is only recorded.
+    def scale_case(kind):
+        if kind in ("smallint", "smallint-big", "smallint-collinear"):
+            n = rng.randrange(3, 14 if rng.random() < 0.8 else 40)
+            B = rng.choice([3, 15, 255, 4095]) if kind == "smallint" else (2 ** 22) // n
+            if kind == "smallint-collinear":      # slopes that differ by 1/(dt dt') only
+                sl, off = rng.randint(-(B // (2 * n)), B // (2 * n)), rng.randint(-B // 4, B // 4)
+                xx = [Fr(max(-B, min(B, off + sl * k + rng.choice([0, 0, 0, 1, -1])))) for k in range(n)]
+            else:
+                xx = [Fr(rng.randint(-B, B)) for _ in range(n)]
+            tt = [Fr(k) for k in range(n)]
+            a = rng.choice([-126, -126, -100, -24, -1, 0, 1, 22, 60, 100, rng.randint(-126, 100)])
+            lo, hi = max(-126, a - 100), min(100, a + 102)
+            c = rng.choice([lo, hi, 0 if lo <= 0 <= hi else lo, rng.randint(lo, hi)])
+            return n, xx, tt, a, c
+        n = rng.randrange(3, 12)
+        if kind == "deep":                       # towards / into the subnormal range
+            xx, tt = [Fr(rng.randint(0, 15)) for _ in range(n)], [Fr(k) for k in range(n)]
+            return n, xx, tt, rng.randint(-149, -115), rng.choice([0, 0, rng.randint(-20, 20)])
+        if kind == "dyadic":
+            tt = [Fr(0)]
+            for _ in range(n - 1):
+                tt.append(tt[-1] + rng.choice([Fr(1, 4), Fr(1, 2), 1, 1, 2, 3]))
+            xx = [Fr(rng.randint(-64, 64), rng.choice([1, 2, 4, 8])) for _ in range(n)]
+        else:
+            ts = np.cumsum(nprng.rand(n).astype(np.float32) + np.float32(0.25)).astype(np.float32)
+            xs = nprng.rand(n).astype(np.float32)
+            if kind == "ramp32":
+                xs = (np.float32(0.3) * ts + xs * np.float32(2.0) ** -20).astype(np.float32)
+            xx, tt = fr32(xs), fr32(ts)
+        return n, xx, tt, rng.randint(-100, 100), rng.randint(-100, 100)
+
+    LIM = Fr(2) ** 126
+    pw_reqs, pw_cases = [], []
+    for cnum in range(300 if quick else 3000):
+        kind = rng.choice(["smallint", "smallint-big", "smallint-collinear", "dyadic", "generic32",
+                           "ramp32", "deep"])
+        n, xx, tt, a, c = scale_case(kind)
+        m = [rng.random() < 0.2 for _ in range(n)] if rng.random() < 0.5 else None
+        xn = xx if m is None else [None if mm else v for v, mm in zip(xx, m)]
+        xs_, ts_ = [None if v is None else v * Fr(2) ** a for v in xn], [v * Fr(2) ** c for v in tt]
+        try:
+            arrs = (f32(xn), f32(tt), f32(xs_), f32(ts_))
+        except (ValueError, OverflowError):
+            ctx.count("pow2:rejected-scaled-input-not-float32")
+            continue
+        pres = [k for k in range(n) if xn[k] is not None]
+        dxs = [abs(xn[k] - xn[i]) for i in pres for k in pres if i < k]
+        qs = [abs(xn[k] - xn[i]) / (tt[k] - tt[i]) for i in pres for k in pres if i < k]
+        big = max(dxs + qs + [tt[-1] - tt[0]] + [d * Fr(2) ** a for d in dxs]
+                  + [q * Fr(2) ** (a - c) for q in qs] + [(tt[-1] - tt[0]) * Fr(2) ** c])
+        if big >= LIM:
+            ctx.count("pow2:rejected-overflow")
+            continue
+        pw_reqs.append(f"noufl {n} {enc_vals(xn)} {enc_vals(tt)} {a} {c}")
+        pw_reqs.append(f"faithful {n} {enc_vals(xn)} {enc_vals(tt)}")
+        pw_cases.append((kind, n, xn, tt, a, c, m, arrs))
+    pw_ans = common.driver(ctx.pid, pw_reqs)
+
+    def run_nat(xa, ta, n, m):
+        A = np.zeros((n, n), dtype=np.int8)
+        try:
+            if m is None:
+                K._visibility_relations_no_missingvalues(xa, ta, n, A)
+            else:
+                K._visibility_relations_missingvalues(xa, ta, n, A, np.array(m, dtype=bool))
+        except (ZeroDivisionError, IndexError) as e:
+            return exc_name(e)
+        return enc_mat(A)
+
+    sreq2, simpl2, closed_bad = [], [], []
+    uf = {"cases": 0, "compiled_unchanged": 0, "model_agrees_with_compiled": 0}
+    uf_reqs, uf_impl = [], []
+    for q, (kind, n, xn, tt, a, c, m, arrs) in enumerate(pw_cases):
+        noufl, faith = pw_ans[2 * q] == "1", pw_ans[2 * q + 1] == "1"
+        base, scaled = run_nat(arrs[0], arrs[1], n, m), run_nat(arrs[2], arrs[3], n, m)
+        rq = (f"nvgRs {n} {enc_vals(xn)} {enc_vals(tt)} {a} {c}" if m is None else
+              f"nvgRs_mv {n} {enc_vals(xn)} {enc_vals(tt)} {a} {c} {enc_bools(m)}")
+        ctx.case(("pow2", tuple(xn), tuple(tt), a, c, None if m is None else tuple(m)), True)
+        rp = {"x": [enc_fr(v) for v in xn], "t": [enc_fr(v) for v in tt], "value_exponent": a,
+              "time_exponent": c, "mask": m}
+        kname = ("_visibility_relations_no_missingvalues" if m is None
+                 else "_visibility_relations_missingvalues")
+        if kind.startswith("smallint"):
+            # both hypotheses are theorems here
+            if not (noufl and faith):
+                closed_bad.append(f"{pw_reqs[2 * q]} -> {pw_ans[2 * q]}, faithful -> {pw_ans[2 * q + 1]}")
+            # the mask is exactly the NaN positions (no NaN without a mask), so both kernels
+            # must realise the criterion
+            E = enc_mat(expected_adjacency(xn, tt, False))
+            for label, obs in (("unscaled", base), (f"x*2^{a}, t*2^{c}", scaled)):
+                if obs != E:
+                    ctx.fail({"kind": "kernel", "kernel": kname,
+                              "clause": "float32-small-integer-series"},
+                             f"small integer series ({label}): the compiled natural kernel differs "
+                             "from the exact criterion", {**rp, "expected": E, "observed": obs})
+        if noufl:
+            ctx.count("pow2:no-underflow-" + kind)
+            if base != scaled:
+                ctx.fail({"kind": "kernel", "kernel": kname, "clause": "float32-pow2-rescaling"},
+                         f"the natural kernel's answer changes when the values are multiplied by 2^{a} "
+                         f"and the timings by 2^{c} (no underflow, no overflow)",
+                         {**rp, "expected": base, "observed": scaled})
+            if faith:
+                sreq2.append(rq)
+                simpl2.append(scaled)
+        else:
+            ctx.count("pow2:underflow-" + kind)
+            uf["cases"] += 1
+            uf["compiled_unchanged"] += base == scaled
+            uf_reqs.append(rq)
+            uf_impl.append(scaled)
+    uf["model_agrees_with_compiled"] = sum(
+        mdl == imp for mdl, imp in zip(common.driver(ctx.pid, uf_reqs), uf_impl))
+    ctx.extra["pow2_rescaling_with_underflow"] = uf
+    ctx.obligation("the Lean driver decides NoUflOn and Faithful true on small integer series "
+                   "(B*N <= 2^22, default timings, exponents in range) — the hypotheses theorems "
+                   f"noUflOn_intSeries / small_integer_series_faithful prove "
+                   f"({sum(1 for cse in pw_cases if cse[0].startswith('smallint'))} series)",
+                   "correspondence", not closed_bad, "\n".join(closed_bad[:5]))
+    ctx.correspond("Lean kernelNR rndF32 on the series rescaled inside the model (scaleVals, scaleTimes) "
+                   "== compiled natural kernels on the rescaled float32 arrays (NoUflOn and Faithful "
+                   "decided in Lean)", sreq2, simpl2)
+    phase("pow2-rescaling")
+
     # ---------------- round 3: the float kernel never invents a link ---------------------------
     # Data on which every difference x[k]-x[i], t[k]-t[i] is a float32 number (ExactDiffs, decided
     # by the Lean driver) but distinct slopes may round to the same float32 (nearly collinear
